@@ -46,13 +46,19 @@ FAMILY_FUNCTIONS = {
             'generated unit constants', 'Unit::as_qty'],
     'ufs': ['HasRefUnit::unit_from_scale', 'LinearScaledUnit::from_scale'],
     'fit': ['HasRefUnit::_fit'],
+    'cvt': ['HasRefUnit::convert', 'HasRefUnit::equiv_amount', 'LinearScaledUnit::ratio'],
+    'cops': ['HasRefUnit::add', 'HasRefUnit::sub', 'HasRefUnit::div', 'HasRefUnit::eq', 'HasRefUnit::partial_cmp',
+             'generated like operators, comparison operators, scalar operators and constructors'],
+    'cderived': ['every generated derived Mul/Div (value form)'],
+    'crt': ['impl Mul<PQ> for Rate', 'generated impl Mul<Rate<TQ, Self>>', 'generated impl Div<Rate<Self, PQ>>'],
     'tab': ['Unit::name', 'Unit::symbol', 'Unit::si_prefix (generated tables)'],
     'sym': ['Unit::from_symbol', 'Quantity::unit_from_symbol'],
     'symc': ['Unit::from_symbol', 'Quantity::unit_from_symbol'],
     'syma': ['Unit::from_symbol', 'Quantity::unit_from_symbol'],
     'noref': ['Quantity::add', 'Quantity::sub', 'Quantity::div', 'Quantity::eq', 'Quantity::partial_cmp', 'generated operators of types without reference unit'],
     'total': ['HasRefUnit::convert', 'HasRefUnit::equiv_amount', 'HasRefUnit::eq', 'HasRefUnit::partial_cmp', 'HasRefUnit::add', 'HasRefUnit::sub',
-              'HasRefUnit::div', 'generated scalar operators and constructors'],
+              'HasRefUnit::div', 'generated scalar operators and constructors', 'Rate::new', 'Rate::from_qty_vals', 'Rate::reciprocal',
+              'impl Mul<PQ> for Rate', 'generated impl Mul<Rate<TQ, Self>>', 'generated impl Div<Rate<Self, PQ>>'],
     'totald': ['every generated derived Mul/Div (value form)'],
     'conv': ['ConversionTable::convert', 'TEMPERATURE_CONVERTER'],
     'si': ['SIPrefix::from_exp', 'SIPrefix::from_abbr', 'SIPrefix::name', 'SIPrefix::abbr', 'SIPrefix::exp', 'SIPrefix::iter'],
@@ -151,7 +157,7 @@ def run_family(cfg, crate_dir, family, lib_text, meta, jobs=8, timeout=3000):
         res = {'cmd': f'(cd {crate_dir} && {" ".join(cmd)})', 'rc': rc, 'wall_s': round(wall, 2)}
         if rc == -9:
             res['undecided'] = [{'reason': f'kani family {family} timed out after {timeout}s'}]
-            res['harness'] = {}
+            res['harness'] = parse_output(out)   # harnesses that finished before the timeout keep their verdict
             return _finish(name, res, harnesses, cached=False)
         parsed = parse_output(out)
         res['harness'] = parsed
